@@ -19,11 +19,21 @@
      mg                = false: collapse_basal_bifurcation() as it stands (drops the removed seed edge's
                          length when the kept edge has none); true: repaired (the length is taken over).
                          Every theorem below holds for both forms.
+     proper acc s      = every leaf carries a taxon of the namespace, accession indices non-negative and
+                         pairwise distinct, node identities distinct (Model/C04Spec.v; implies well_formed)
+     collides mg s     = s is not rooted and its seed still has exactly two children after
+                         encode_bipartitions(): the domain of the listed finding
+                         weighted-distance-root-adjacent-edge-collision (collision_domain below)
+     reseed mg s path  = Tree.reseed_at(node) with default arguments, node given by its path of child
+                         positions from the seed (Model/C04Spec.v, tied to the library by a second group
+                         of correspondence cases)
      lengths in units of 2^-10; euclidean_distance = sqrt(euclid_sq) * 2^-10 (the square root and
      binary64 rounding are outside the model, so euclid_is_L2 and euclid_triangle are stated on the
      exact radicands, the triangle inequality in its square-root-free form). *)
 From Coq Require Import ZArith List Bool Relations.
-From DV Require Import Model.PyPrims Model.Tree Model.C04Model Proofs.C04Core Proofs.C04Witness.
+From Coq Require Import Reals.
+From DV Require Import Model.PyPrims Model.Tree Model.C04Model Model.C04Spec Proofs.C04Core Proofs.C04Witness
+  Proofs.C04Full Proofs.C04Real.
 Import ListNotations.
 Open Scope Z_scope.
 
@@ -126,65 +136,131 @@ Theorem euclid_triangle : forall mg p acc s1 s2 s3 d13 d12 d23,
 Proof. exact F_euclid_triangle. Qed.
 Print Assumptions euclid_triangle.
 
+(* the same in the usual form, over Coq's real numbers (depends on the three standard axioms of
+   Coq.Reals only): euclidean_distance = sqrt(euclid_sq) * 2^-10 *)
+Theorem euclid_triangle_sqrt : forall mg p acc s1 s2 s3 d13 d12 d23,
+  well_formed acc s1 = true -> well_formed acc s2 = true -> well_formed acc s3 = true ->
+  euclid_sq mg p acc s1 s3 = Ok d13 -> euclid_sq mg p acc s1 s2 = Ok d12 -> euclid_sq mg p acc s2 s3 = Ok d23 ->
+  (sqrt (IZR d13) <= sqrt (IZR d12) + sqrt (IZR d23))%R.
+Proof. exact euclid_triangle_sqrt_l. Qed.
+Print Assumptions euclid_triangle_sqrt.
+
 (* ---- re-drawings ---- *)
 
-(* FULL STATEMENT (refuted below for the current code):
-     forall acc r t t', redraw t t' -> well_formed acc (t, r) = true ->
-       every function returns the same on (t, r) and (t', r) against every well-formed s2, in both
-       argument positions; in particular the distances between (t, r) and (t', r) are 0.
-   PROVED: the statement for every re-drawing (children reordered at any set of nodes, the seed's
-   included), both rooting states, under two conditions:
-     - no two edges of the tree carry the same split (NoDup (splits ...)): fails exactly for not-rooted
-       trees whose seed keeps two children after encode_bipartitions(), where the statement is FALSE for
-       the weighted distances (zero_on_redrawing_refuted);
-     - if the tree is not rooted and its seed has exactly two children, both internal, then their two
-       edge lengths are both present or both missing - without this the statement is FALSE for the code
-       as it stands (mg = false), child_order_invariant_refuted; no such condition for the repaired
-       form (mg = true) - and their leafset masks are disjoint.
-   MISSING: disjointness of the two seed-child leafsets and duplicate-freeness of the splits are
-   hypotheses here; they follow from "the leaves carry distinct taxa" by the bit-level theory of the
-   encoding (property C01), which this development does not import.  Moving the seed of an unrooted
-   tree (reseed_at) is not modelled: it is covered by the correspondence and the oracle only. *)
-Theorem child_order_invariant_partial : forall mg acc r t t',
-  redraw t t' ->
-  well_formed acc (t, r) = true -> NoDup (splits mg acc (t, r)) ->
-  (r <> Some true -> forall c0 c1, t_kids t = [c0; c1] ->
-     (2 <= length (t_kids c0))%nat -> (2 <= length (t_kids c1))%nat ->
-     (mg = true \/ (t_len c0 = None <-> t_len c1 = None)) /\ Z.land (lmask acc c0) (lmask acc c1) = 0) ->
+(* Theorem and finding partition the trees with pairwise distinct leaf taxa: the split list stored by
+   encode_bipartitions() has no duplicates exactly when the tree is outside the finding's domain. *)
+Theorem collision_domain : forall mg acc s,
+  distinct_taxa acc (fst s) = true -> (NoDup (splits mg acc s) <-> collides mg s = false).
+Proof. exact G_collision_domain. Qed.
+Print Assumptions collision_domain.
+
+(* ... and a condition on the tree as given that keeps it outside: no node of outdegree one and at
+   least three leaves (so: the finding is about 2-leaf trees and unifurcations at/below the seed) *)
+Theorem not_colliding : forall mg t r,
+  unifurcation_free t = true -> (3 <= n_leaves t)%nat -> collides mg (t, r) = false.
+Proof. exact G_not_colliding. Qed.
+Print Assumptions not_colliding.
+
+(* Re-drawings (children reordered at any set of nodes, the seed's included; both rooting states), for
+   the library as repaired (mg = true): every function returns the same on a tree and on its re-drawing,
+   in both argument positions, for every missing-length policy - for EVERY tree with distinct leaf taxa
+   outside the finding's domain.  Inside the domain the statement is false (zero_on_redrawing_refuted);
+   for the code before the basal-collapse repair (mg = false) it was false as well
+   (child_order_invariant_refuted). *)
+Theorem child_order_invariant : forall acc r t t',
+  redraw t t' -> proper acc (t, r) = true -> collides true (t, r) = false ->
   forall p s2, well_formed acc s2 = true ->
-    fpfn mg acc (t, r) s2 = fpfn mg acc (t', r) s2 /\ fpfn mg acc s2 (t, r) = fpfn mg acc s2 (t', r) /\
-    rf mg acc (t, r) s2 = rf mg acc (t', r) s2 /\ rf mg acc s2 (t, r) = rf mg acc s2 (t', r) /\
-    wrf mg p acc (t, r) s2 = wrf mg p acc (t', r) s2 /\ wrf mg p acc s2 (t, r) = wrf mg p acc s2 (t', r) /\
-    euclid_sq mg p acc (t, r) s2 = euclid_sq mg p acc (t', r) s2 /\ euclid_sq mg p acc s2 (t, r) = euclid_sq mg p acc s2 (t', r).
-Proof. exact F_child_order_invariant. Qed.
-Print Assumptions child_order_invariant_partial.
+    fpfn true acc (t, r) s2 = fpfn true acc (t', r) s2 /\ fpfn true acc s2 (t, r) = fpfn true acc s2 (t', r) /\
+    rf true acc (t, r) s2 = rf true acc (t', r) s2 /\ rf true acc s2 (t, r) = rf true acc s2 (t', r) /\
+    wrf true p acc (t, r) s2 = wrf true p acc (t', r) s2 /\ wrf true p acc s2 (t, r) = wrf true p acc s2 (t', r) /\
+    euclid_sq true p acc (t, r) s2 = euclid_sq true p acc (t', r) s2 /\
+    euclid_sq true p acc s2 (t, r) = euclid_sq true p acc s2 (t', r).
+Proof. exact G_child_order_invariant. Qed.
+Print Assumptions child_order_invariant.
 
-Theorem zero_on_redrawing_partial : forall mg p acc r t t',
-  redraw t t' ->
-  well_formed acc (t, r) = true -> NoDup (splits mg acc (t, r)) ->
-  (r <> Some true -> forall c0 c1, t_kids t = [c0; c1] ->
-     (2 <= length (t_kids c0))%nat -> (2 <= length (t_kids c1))%nat ->
-     (mg = true \/ (t_len c0 = None <-> t_len c1 = None)) /\ Z.land (lmask acc c0) (lmask acc c1) = 0) ->
-  rf mg acc (t, r) (t', r) = Ok 0 /\
-  fpfn mg acc (t, r) (t', r) = Ok (0, 0) /\
-  (forall v, wrf mg p acc (t, r) (t', r) = Ok v -> v = 0) /\
-  (forall v, euclid_sq mg p acc (t, r) (t', r) = Ok v -> v = 0).
-Proof. exact F_zero_on_redrawing. Qed.
-Print Assumptions zero_on_redrawing_partial.
+Theorem zero_on_redrawing : forall p acc r t t',
+  redraw t t' -> proper acc (t, r) = true -> collides true (t, r) = false ->
+  rf true acc (t, r) (t', r) = Ok 0 /\
+  fpfn true acc (t, r) (t', r) = Ok (0, 0) /\
+  (forall v, wrf true p acc (t, r) (t', r) = Ok v -> v = 0) /\
+  (forall v, euclid_sq true p acc (t, r) (t', r) = Ok v -> v = 0).
+Proof. exact G_zero_on_redrawing. Qed.
+Print Assumptions zero_on_redrawing.
 
-(* DEFECT (key weighted-distance-root-adjacent-edge-collision): a not-rooted tree whose seed keeps two
-   children after encode_bipartitions() - here (((A:1,B:1):1):1,C:5) - has two edges with one split;
+(* the norm characterisations on the same domain (no hypothesis about colliding splits left) *)
+Theorem wrf_is_L1_on_domain : forall mg p acc s1 s2 v U,
+  proper acc s1 = true -> proper acc s2 = true -> collides mg s1 = false -> collides mg s2 = false ->
+  wrf mg p acc s1 s2 = Ok v ->
+  NoDup U -> incl (splits mg acc s1) U -> incl (splits mg acc s2) U ->
+  v = fold_right Z.add 0 (map (fun m => Z.abs (split_len mg acc s1 m - split_len mg acc s2 m)) U).
+Proof. exact G_wrf_is_L1. Qed.
+Print Assumptions wrf_is_L1_on_domain.
+
+Theorem euclid_is_L2_on_domain : forall mg p acc s1 s2 v U,
+  proper acc s1 = true -> proper acc s2 = true -> collides mg s1 = false -> collides mg s2 = false ->
+  euclid_sq mg p acc s1 s2 = Ok v ->
+  NoDup U -> incl (splits mg acc s1) U -> incl (splits mg acc s2) U ->
+  v = fold_right Z.add 0
+        (map (fun m => (split_len mg acc s1 m - split_len mg acc s2 m) * (split_len mg acc s1 m - split_len mg acc s2 m)) U).
+Proof. exact G_euclid_is_L2. Qed.
+Print Assumptions euclid_is_L2_on_domain.
+
+(* ---- moving the seed of a tree that is not rooted ---- *)
+
+(* Tree.reseed_at(internal node): the encoding of the re-seeded tree has the same set of splits and the
+   same length per split (missing = 0) as the encoding of the tree before - the lengths travel with the
+   inverted edges, the clean-up merges edges with one split by adding their lengths (two basal edges
+   included).  Hypotheses: distinct leaf taxa, not rooted, the seed is not a unifurcation (it would be
+   left behind as a taxon-less leaf), both trees outside the finding's domain. *)
+Theorem split_length_map_invariant : forall acc t r path s',
+  proper acc (t, r) = true -> r <> Some true -> ((2 <= length (t_kids t))%nat \/ path = []) ->
+  reseed true (t, r) path = Some s' ->
+  collides true (t, r) = false -> collides true s' = false ->
+  NoDup (splits true acc (t, r)) /\ NoDup (splits true acc s') /\
+  (forall m, In m (splits true acc s') <-> In m (splits true acc (t, r))) /\
+  (forall m, split_len true acc s' m = split_len true acc (t, r) m).
+Proof. exact G_split_length_map_invariant. Qed.
+Print Assumptions split_length_map_invariant.
+
+(* hence every distance is unchanged by moving the seed (weighted ones: repaired missing-length policy,
+   under which a length that is missing counts 0 wherever the edge ends up), and the distances between
+   the tree and the re-seeded tree are 0 *)
+Theorem seed_move_invariant : forall acc t r path s',
+  proper acc (t, r) = true -> r <> Some true -> ((2 <= length (t_kids t))%nat \/ path = []) ->
+  reseed true (t, r) path = Some s' ->
+  collides true (t, r) = false -> collides true s' = false ->
+  proper acc s' = true /\
+  (forall s2, well_formed acc s2 = true ->
+    fpfn true acc (t, r) s2 = fpfn true acc s' s2 /\ fpfn true acc s2 (t, r) = fpfn true acc s2 s' /\
+    rf true acc (t, r) s2 = rf true acc s' s2 /\ rf true acc s2 (t, r) = rf true acc s2 s' /\
+    wrf true ZeroBoth acc (t, r) s2 = wrf true ZeroBoth acc s' s2 /\ wrf true ZeroBoth acc s2 (t, r) = wrf true ZeroBoth acc s2 s' /\
+    euclid_sq true ZeroBoth acc (t, r) s2 = euclid_sq true ZeroBoth acc s' s2 /\
+    euclid_sq true ZeroBoth acc s2 (t, r) = euclid_sq true ZeroBoth acc s2 s') /\
+  rf true acc (t, r) s' = Ok 0 /\ fpfn true acc (t, r) s' = Ok (0, 0) /\
+  wrf true ZeroBoth acc (t, r) s' = Ok 0 /\ euclid_sq true ZeroBoth acc (t, r) s' = Ok 0.
+Proof. exact G_seed_move_invariant. Qed.
+Print Assumptions seed_move_invariant.
+
+(* the re-seeded tree is outside the finding's domain whenever its seed does not have exactly two
+   children (reseed_at leaves no unifurcation behind) *)
+Theorem reseeded_not_colliding : forall mg s path s',
+  reseed mg s path = Some s' -> length (t_kids (fst s')) <> 2%nat -> collides mg s' = false.
+Proof. exact G_reseeded_not_colliding. Qed.
+Print Assumptions reseeded_not_colliding.
+
+(* LISTED FINDING (key weighted-distance-root-adjacent-edge-collision), inside the domain `collides`:
+   a not-rooted tree whose seed keeps two children after encode_bipartitions() - here (((A:1,B:1):1):1,C:5) - has two edges with one split;
    only the last one's length is used, so the tree is at weighted distance 3.0 from its own re-drawing
    (for every missing-length policy and both forms of the basal collapse) *)
 Theorem zero_on_redrawing_refuted : forall mg p,
   exists acc r t t',
-    redraw t t' /\ well_formed acc (t, r) = true /\ well_formed acc (t', r) = true /\
+    redraw t t' /\ proper acc (t, r) = true /\ proper acc (t', r) = true /\ collides mg (t, r) = true /\
     rf mg acc (t, r) (t', r) = Ok 0 /\ wrf mg p acc (t, r) (t', r) = Ok 3072 /\ euclid_sq mg p acc (t, r) (t', r) = Ok 9437184.
 Proof. exact zero_on_redrawing_refuted_l. Qed.
 Print Assumptions zero_on_redrawing_refuted.
 
-(* DEFECT (key basal-collapse-drops-length-onto-missing): collapse_basal_bifurcation() as it stands
-   (mg = false) drops the length of the removed seed edge when the kept one has none:
+(* REPAIRED DEFECT (basal-collapse-drops-length-onto-missing, /repo 1fc3f136): collapse_basal_bifurcation()
+   before the repair (mg = false) drops the length of the removed seed edge when the kept one has none:
    ((A:1,B:1),(C:1,D:1):1) is at weighted distance 1.0 from the same tree with the seed's children
    exchanged (no split collision here); 0 with the repaired form (mg = true) *)
 Theorem child_order_invariant_refuted :
@@ -199,7 +275,8 @@ Print Assumptions child_order_invariant_refuted.
 (* ---- definedness ---- *)
 
 (* FULL STATEMENT: forall p ..., wrf mg p acc s1 s2 returns iff wrf mg p acc s2 s1 returns.
-   DEFECT F8 (key wrf-definedness-asymmetric): false for the current code - (A,B,C) without lengths
+   REPAIRED DEFECT F8 (wrf-definedness-asymmetric, /repo 869e13ed; the library now has policy ZeroBoth):
+   false for the code before the repair (policy Current) - (A,B,C) without lengths
    against (A:1,B:1,C:1): 3.0 one way, ValueError the other way. *)
 Theorem defined_sym_refuted : forall mg,
   exists acc s1 s2,
